@@ -34,6 +34,7 @@ def ftKind (k : String) (f : Bytes) : String :=
   | "MP4" => ftOut (loadMp4 f) fun v => ftOpt v.tags
   | "AAC" => ftOut (loadAac f) fun _ => "0"
   | "AC3" => ftOut (loadAc3 f) fun _ => "0"
+  | "SMF" => ftOut (loadSmf f) fun _ => "0"
   | "AIFF" => ftOut (loadAiff f) fun v => ftOpt v.1
   | "DSDIFF" => ftOut (loadDsdiff f) fun v => ftOpt v.1
   | "WAVE" => ftOut (loadWave f) fun v => ftOpt v.2
